@@ -1,14 +1,31 @@
 // Multi-fraction histories of property C01: rotation, sealing, crashes inside them and inside the
-// start-up over several fractions. See props/C01/coq/ModelMulti.v.
+// start-up over several fractions (model: props/C01/coq/ModelMulti.v, case constructor CMulti).
+//
+// The real store runs in traced child processes (FracManager level). Rotation and sealing are
+// driven separately through fracmanager/export_verif_c01.go (FracManager.rotate / FracManager.seal),
+// so bulks land in a new active fraction while older ones are still unsealed and the next start has
+// to seal them. Crash states are rebuilt from the strace log at operation boundaries INSIDE a
+// rotation, a seal (incl. a torn write into ._sdocs/._index and power loss) and a start-up; a fresh
+// child is started on them; after every start every submitted document is fetched and every token
+// searched, and FracManager.fracs is listed (order, sealed/writable). The file operations of the
+// completed steps are projected to (fraction number in creation order, file, operation) and compared
+// with the model's programs.
 package main
 
 import (
+	"encoding/hex"
 	"encoding/json"
+	"errors"
 	"fmt"
 	"os"
+	"sort"
+	"strings"
 
 	"github.com/ozontech/seq-db/fracmanager"
 
+	"verif/harness/internal/casefile"
+	"verif/harness/internal/crashfs"
+	"verif/harness/internal/rng"
 	"verif/harness/internal/storectl"
 )
 
@@ -34,46 +51,800 @@ func init() {
 	})
 }
 
+// MFrac is one entry of FracManager.fracs as observed after a start.
+type MFrac struct {
+	Ord      int  `json:"ord"`
+	Sealed   bool `json:"sealed"`
+	Writable bool `json:"writable"`
+}
+
+type mobs struct {
+	obs
+	Fracs []MFrac `json:"fracs,omitempty"`
+}
+
+// one model-level operation of a trace: a range of tr.Ops and its Coq rendering
+type mOp struct {
+	start, end int
+	coq        string
+	frac       int // -1: directory fsync
+	sync       bool
+	sw         bool
+}
+
+type mwin struct {
+	start int // index in tr.Ops where the window begins
+	ops   []mOp
+}
+
+var sufName = map[string]string{".meta": "NMeta", ".docs": "NDocs", "._sdocs": "NSdocsTmp", ".sdocs": "NSdocs",
+	"._index": "NIndexTmp", ".index": "NIndex"}
+
+type mrunner struct {
+	*runner
+	ords    map[string]int
+	mops    []string
+	mobs    []mobs
+	rotated bool
+	crashed bool
+}
+
+// fracFile splits "seq-db-<id><suffix>".
+func fracFile(path string) (name, suffix string, ok bool) {
+	if !strings.HasPrefix(path, "seq-db-") {
+		return "", "", false
+	}
+	i := strings.IndexByte(path, '.')
+	if i < 0 {
+		return "", "", false
+	}
+	return path[:i], path[i:], true
+}
+
+func (x *mrunner) ord(name string) int {
+	if o, ok := x.ords[name]; ok {
+		return o
+	}
+	o := len(x.ords)
+	x.ords[name] = o
+	return o
+}
+
+// mproject turns a trace into windows (split at marks) of model-level operations.
+func (x *mrunner) mproject(tr *crashfs.Trace) ([]mwin, error) {
+	var wins []mwin
+	cur := mwin{start: 0}
+	for i, o := range tr.Ops {
+		if o.Kind == crashfs.Mark {
+			wins = append(wins, cur)
+			cur = mwin{start: i + 1}
+			continue
+		}
+		if o.Kind == crashfs.FsyncDir {
+			cur.ops = append(cur.ops, mOp{start: i, end: i + 1, coq: "MPDirSync", frac: -1, sync: true})
+			continue
+		}
+		name, suf, ok := fracFile(o.Path)
+		if !ok {
+			continue // .immature, .frac-cache
+		}
+		fn, known := sufName[suf]
+		if !known {
+			return nil, fmt.Errorf("%w: operation on unexpected file %s", errHarness, o.Path)
+		}
+		fi := x.ord(name)
+		tmp := suf == "._sdocs" || suf == "._index"
+		fk := "FDocs"
+		if suf == ".meta" {
+			fk = "FMeta"
+		}
+		switch o.Kind {
+		case crashfs.Create:
+			cur.ops = append(cur.ops, mOp{start: i, end: i + 1, coq: fmt.Sprintf("MPCreate %d %s", fi, fn), frac: fi})
+		case crashfs.Write:
+			if suf == ".docs" || suf == ".meta" {
+				h := o.Data
+				if len(h) > 33 {
+					h = h[:33]
+				}
+				cur.ops = append(cur.ops, mOp{start: i, end: i + 1, frac: fi,
+					coq: fmt.Sprintf("MPB %d (PW %s %d %s %d)", fi, fk, o.Off, casefile.Bytes(h), len(o.Data))})
+				continue
+			}
+			if !tmp {
+				return nil, fmt.Errorf("%w: write into %s", errHarness, o.Path)
+			}
+			if n := len(cur.ops); n > 0 && cur.ops[n-1].sw && cur.ops[n-1].frac == fi && cur.ops[n-1].coq == fmt.Sprintf("MPSW %d %s", fi, fn) {
+				cur.ops[n-1].end = i + 1
+				continue
+			}
+			cur.ops = append(cur.ops, mOp{start: i, end: i + 1, coq: fmt.Sprintf("MPSW %d %s", fi, fn), frac: fi, sw: true})
+		case crashfs.Fsync:
+			if suf == ".docs" || suf == ".meta" {
+				cur.ops = append(cur.ops, mOp{start: i, end: i + 1, coq: fmt.Sprintf("MPB %d (PF %s)", fi, fk), frac: fi})
+			} else {
+				cur.ops = append(cur.ops, mOp{start: i, end: i + 1, coq: fmt.Sprintf("MPFs %d %s", fi, fn), frac: fi})
+			}
+		case crashfs.Truncate:
+			if suf != ".docs" && suf != ".meta" {
+				return nil, fmt.Errorf("%w: truncate of %s", errHarness, o.Path)
+			}
+			cur.ops = append(cur.ops, mOp{start: i, end: i + 1, coq: fmt.Sprintf("MPB %d (PT %s %d)", fi, fk, o.Off), frac: fi})
+		case crashfs.Rename:
+			n2, s2, ok2 := fracFile(o.Path2)
+			f2, k2 := sufName[s2]
+			if !ok2 || !k2 || n2 != name {
+				return nil, fmt.Errorf("%w: rename %s -> %s", errHarness, o.Path, o.Path2)
+			}
+			cur.ops = append(cur.ops, mOp{start: i, end: i + 1, coq: fmt.Sprintf("MPRen %d %s %s", fi, fn, f2), frac: fi})
+		case crashfs.Unlink:
+			cur.ops = append(cur.ops, mOp{start: i, end: i + 1, coq: fmt.Sprintf("MPUnl %d %s", fi, fn), frac: fi})
+		}
+	}
+	wins = append(wins, cur)
+	return wins, nil
+}
+
+// mclose ends the current child; the operations of its first `upto` calls enter the history's log.
+func (x *mrunner) mclose(upto int) (*crashfs.Trace, []mwin, error) {
+	if x.child == nil {
+		return nil, nil, nil
+	}
+	tr, calls, err := x.closeChild()
+	if err != nil {
+		return nil, nil, err
+	}
+	wins, err := x.mproject(tr)
+	if err != nil {
+		return nil, nil, err
+	}
+	if len(wins) < len(calls) {
+		return nil, nil, fmt.Errorf("%w: %d windows for %d calls", errHarness, len(wins), len(calls))
+	}
+	ws, err := windows(project(tr), len(calls))
+	if err != nil {
+		return nil, nil, err
+	}
+	for j, c := range calls {
+		if strings.HasPrefix(c, "bulk:") {
+			var bi int
+			fmt.Sscanf(c, "bulk:%d", &bi)
+			x.learnBulk(bi, tr, ws[j])
+		}
+		if j >= upto {
+			continue
+		}
+		for _, o := range wins[j].ops {
+			x.mops = append(x.mops, o.coq)
+		}
+		if strings.HasPrefix(c, "bulk:") && len(wins[j].ops) > 0 {
+			x.mops = append(x.mops, fmt.Sprintf("MPB %d PAck", wins[j].ops[0].frac))
+		}
+	}
+	if upto >= len(calls) { // anything after the last answer
+		for j := len(calls); j < len(wins); j++ {
+			for _, o := range wins[j].ops {
+				x.mops = append(x.mops, o.coq)
+			}
+		}
+	}
+	return tr, wins, nil
+}
+
+// crashState: the first j model-level operations of the window completed; the next one (a group of
+// writes into a temp file) possibly torn; possibly power loss.
+func (x *mrunner) crashState(tr *crashfs.Trace, w mwin, j int, torn, pl bool) *crashfs.State {
+	cut := w.start
+	if j >= len(w.ops) {
+		if len(w.ops) > 0 {
+			cut = w.ops[len(w.ops)-1].end
+		}
+	} else {
+		cut = w.ops[j].start
+	}
+	st := tr.StateAt(cut)
+	if torn && j < len(w.ops) && w.ops[j].sw {
+		g := w.ops[j]
+		var wr []int
+		for i := g.start; i < g.end; i++ {
+			if tr.Ops[i].Kind == crashfs.Write {
+				wr = append(wr, i)
+			}
+		}
+		if len(wr) > 0 {
+			m := x.r.Intn(len(wr))
+			for i := g.start; i < wr[m]; i++ {
+				st.Apply(tr.Ops[i])
+			}
+			st.ApplyTorn(tr.Ops[wr[m]], x.r.Intn(len(tr.Ops[wr[m]].Data)+1))
+		}
+	}
+	if pl {
+		st.PowerLoss(func(path string, synced, length int) int { return 0 })
+	}
+	return st
+}
+
+func (x *mrunner) mobserve() mobs {
+	o := mobs{obs: x.observe()}
+	if o.Died {
+		return o
+	}
+	x.calls = append(x.calls, "q")
+	r, err := x.child.Call(storectl.Req{Op: "mfracs"})
+	if err != nil {
+		return mobs{obs: obs{Died: true, Why: "died listing fractions: " + short(err.Error())}}
+	}
+	var mr mResp
+	json.Unmarshal(r.Extra, &mr)
+	// fractions created by the running child are not in the parsed traces yet: names (ULIDs) sort in
+	// creation order
+	var fresh []string
+	for _, f := range mr.Fracs {
+		if _, ok := x.ords[f.Name]; !ok {
+			fresh = append(fresh, f.Name)
+		}
+	}
+	sort.Strings(fresh)
+	for _, n := range fresh {
+		x.ord(n)
+	}
+	for _, f := range mr.Fracs {
+		o.Fracs = append(o.Fracs, MFrac{Ord: x.ords[f.Name], Sealed: f.Sealed, Writable: f.Writable})
+	}
+	return o
+}
+
+func execMulti(plan Plan, tmp string) (res *result) {
+	plan.Planned = nil
+	res = &result{plan: plan, bulks: make([]bulkBytes, len(plan.Bulks))}
+	res.plan.Ops = append([]POp(nil), plan.Ops...)
+	root, err := os.MkdirTemp(tmp, "hC01m-")
+	if err != nil {
+		res.err = err
+		return
+	}
+	defer os.RemoveAll(root)
+	x := &mrunner{runner: &runner{root: root, r: rng.New(plan.Seed), res: res}, ords: map[string]int{}}
+	defer func() {
+		if x.child != nil {
+			x.child.Kill()
+			x.child.Close()
+		}
+		res.mops, res.mobs = x.mops, x.mobs
+		if len(x.mobs) > 0 && x.mobs[len(x.mobs)-1].Died {
+			res.plan.Planned = plan.Ops
+		}
+	}()
+	if err := x.newDir(nil); err != nil {
+		res.err = err
+		return
+	}
+	fail := func(e error) *result { res.err = e; return res }
+	died := func(i int, why string) *result {
+		x.mobs = append(x.mobs, mobs{obs: obs{Died: true, Why: why}})
+		res.plan.Ops = res.plan.Ops[:i+1]
+		res.plan.Ops[i].Kind = "restart" // reported as a start that did not come up
+		return res
+	}
+	submitted := func(bi int) {
+		for _, b := range x.subm {
+			if b == bi {
+				return
+			}
+		}
+		x.subm = append(x.subm, bi)
+	}
+	sendBulk := func(bi int) error {
+		docs := make([]storectl.Doc, 0, len(plan.Bulks[bi]))
+		for _, d := range plan.Bulks[bi] {
+			toks := make([]string, len(d.Toks))
+			for i, t := range d.Toks {
+				toks[i] = fmt.Sprintf("k:v%d", t)
+			}
+			docs = append(docs, storectl.Doc{MID: d.mid(), RID: d.rid(), BodyHex: hex.EncodeToString([]byte(d.Body)), Tokens: toks})
+		}
+		x.calls = append(x.calls, fmt.Sprintf("bulk:%d", bi))
+		_, err := x.child.Call(storectl.Req{Op: "bulk", Docs: docs})
+		return err
+	}
+	// crash inside the last call of the current child
+	crashLast := func(op *POp) error {
+		ncalls := len(x.calls)
+		tr, wins, err := x.mclose(ncalls - 1)
+		if err != nil {
+			return err
+		}
+		w := wins[ncalls-1]
+		if op.J < 0 || op.J > len(w.ops) {
+			op.J = x.r.Intn(len(w.ops) + 1)
+		}
+		if !(op.J < len(w.ops) && w.ops[op.J].sw) {
+			op.Torn = false
+		}
+		st := x.crashState(tr, w, op.J, op.Torn, op.PL)
+		x.crashed = true
+		return x.newDir(st)
+	}
+	for i := range res.plan.Ops {
+		op := &res.plan.Ops[i]
+		if x.child == nil && op.Kind != "restart" && op.Kind != "restartcrash" {
+			op.Kind = "skip"
+			continue
+		}
+		switch op.Kind {
+		case "bulk":
+			if err := sendBulk(op.Bulk); err != nil {
+				return died(i, "bulk failed: "+short(err.Error()))
+			}
+			submitted(op.Bulk)
+		case "rotate", "seal":
+			x.calls = append(x.calls, op.Kind)
+			r, err := x.child.Call(storectl.Req{Op: "m" + op.Kind})
+			if err != nil {
+				return died(i, op.Kind+" failed: "+short(err.Error()))
+			}
+			var mr mResp
+			json.Unmarshal(r.Extra, &mr)
+			op.Acked = mr.Done
+			if op.Kind == "rotate" && mr.Done {
+				x.rotated = true
+			}
+		case "crashin":
+			if err := sendBulk(op.Bulk); err != nil {
+				return fail(fmt.Errorf("%w: bulk to be crashed failed: %v", errHarness, err))
+			}
+			submitted(op.Bulk)
+			ncalls := len(x.calls)
+			tr, wins, err := x.mclose(ncalls - 1)
+			if err != nil {
+				return fail(err)
+			}
+			w := wins[ncalls-1]
+			if op.K > len(w.ops) {
+				op.K = len(w.ops)
+			}
+			cut := w.start
+			if op.K < len(w.ops) {
+				cut = w.ops[op.K].start
+			} else if len(w.ops) > 0 {
+				cut = w.ops[len(w.ops)-1].end
+			}
+			st := tr.StateAt(cut)
+			if op.K < len(w.ops) && tr.Ops[w.ops[op.K].start].Kind == crashfs.Write {
+				o := tr.Ops[w.ops[op.K].start]
+				if op.T < 0 {
+					op.T = pickT(x.r, len(o.Data))
+				}
+				st.ApplyTorn(o, op.T)
+			} else {
+				op.T = 0
+			}
+			// power-loss cuts apply to the files of the fraction written to; all others are durable
+			wname := ""
+			if len(w.ops) > 0 {
+				wname, _, _ = fracFile(tr.Ops[w.ops[0].start].Path)
+			}
+			flen := func(suf string) int {
+				return len(st.Files()[wname+suf])
+			}
+			if op.KD < 0 {
+				op.KD = pickKeep(x.r, flen(".docs"))
+			}
+			if op.KM < 0 {
+				op.KM = pickKeep(x.r, flen(".meta"))
+			}
+			st.PowerLoss(func(path string, synced, length int) int {
+				switch {
+				case path == wname+".docs":
+					return op.KD
+				case path == wname+".meta":
+					return op.KM
+				}
+				return length
+			})
+			x.crashed = true
+			if err := x.newDir(st); err != nil {
+				return fail(err)
+			}
+		case "power":
+			tr, _, err := x.mclose(len(x.calls))
+			if err != nil {
+				return fail(err)
+			}
+			st := tr.StateAt(len(tr.Ops))
+			st.PowerLoss(func(path string, synced, length int) int { return 0 })
+			x.crashed = true
+			if err := x.newDir(st); err != nil {
+				return fail(err)
+			}
+		case "rotatecrash", "sealcrash":
+			x.calls = append(x.calls, op.Kind)
+			r, err := x.child.Call(storectl.Req{Op: "m" + strings.TrimSuffix(op.Kind, "crash")})
+			if err != nil {
+				return died(i, op.Kind+": the operation to be crashed failed: "+short(err.Error()))
+			}
+			var mr mResp
+			json.Unmarshal(r.Extra, &mr)
+			op.Acked = mr.Done
+			if op.Kind == "rotatecrash" {
+				op.Torn, op.PL = false, false
+			}
+			if err := crashLast(op); err != nil {
+				return fail(err)
+			}
+		case "restart", "restartcrash":
+			if x.child != nil { // kill: everything written so far stays
+				if _, _, err := x.mclose(len(x.calls)); err != nil {
+					return fail(err)
+				}
+			}
+			if err := x.start(); err != nil {
+				return fail(err)
+			}
+			oerr := x.open()
+			if oerr != nil {
+				x.mclose(0)
+				return died(i, short(oerr.Error()))
+			}
+			if op.Kind == "restartcrash" {
+				tr, wins, err := x.mclose(0)
+				if err != nil {
+					return fail(err)
+				}
+				w := wins[0]
+				if op.J < 0 || op.J > len(w.ops) {
+					op.J = x.r.Intn(len(w.ops) + 1)
+				}
+				if !(op.J < len(w.ops) && w.ops[op.J].sw) {
+					op.Torn = false
+				}
+				op.CutV = make([]int, len(x.ords))
+				for _, o := range w.ops[:op.J] {
+					if !o.sync && o.frac >= 0 {
+						op.CutV[o.frac]++
+					}
+				}
+				st := x.crashState(tr, w, op.J, op.Torn, op.PL)
+				x.crashed = true
+				if err := x.newDir(st); err != nil {
+					return fail(err)
+				}
+				continue
+			}
+			o := x.mobserve()
+			x.mobs = append(x.mobs, o)
+			if o.Died {
+				res.plan.Ops = res.plan.Ops[:i+1]
+				return
+			}
+			if x.rotated && x.crashed {
+				res.ntriv = true
+			}
+		}
+	}
+	if x.child != nil {
+		if _, _, err := x.mclose(len(x.calls)); err != nil {
+			return fail(err)
+		}
+	}
+	return res
+}
+
+func coqBulks(sb *strings.Builder, res *result) {
+	sb.WriteString("[")
+	for i, b := range res.plan.Bulks {
+		if i > 0 {
+			sb.WriteString("; ")
+		}
+		bb := res.bulks[i]
+		sb.WriteString("Bulk [")
+		for j, d := range b {
+			if j > 0 {
+				sb.WriteString("; ")
+			}
+			toks := make([]int, len(d.Toks))
+			copy(toks, d.Toks)
+			fmt.Fprintf(sb, "Doc %d %s %s", d.ID, casefile.Bytes([]byte(d.Body)), casefile.NList(toks))
+		}
+		fmt.Fprintf(sb, "] %s %d %s %d", casefile.Bytes(bb.dpay), bb.draw, casefile.Bytes(bb.mpay), bb.mraw)
+	}
+	sb.WriteString("]")
+}
+
+func coqCaseMulti(res *result) (string, bool) {
+	kept := res.plan.Ops[:0:0]
+	for _, o := range res.plan.Ops {
+		if o.Kind != "skip" {
+			kept = append(kept, o)
+		}
+	}
+	res.plan.Ops = kept
+	for _, o := range res.plan.Ops {
+		if (o.Kind == "bulk" || o.Kind == "crashin") && !res.bulks[o.Bulk].known {
+			return "", false
+		}
+	}
+	var sb strings.Builder
+	sb.WriteString("CMulti ")
+	coqBulks(&sb, res)
+	sb.WriteString(" [")
+	for i, o := range res.plan.Ops {
+		if i > 0 {
+			sb.WriteString("; ")
+		}
+		switch o.Kind {
+		case "bulk":
+			fmt.Fprintf(&sb, "IMBulk %d", o.Bulk)
+		case "crashin":
+			fmt.Fprintf(&sb, "IMCrashIn %d %d %d %d %d", o.Bulk, o.K, o.T, o.KD, o.KM)
+		case "power":
+			sb.WriteString("IMPower")
+		case "rotate":
+			sb.WriteString("IMRotate")
+		case "seal":
+			sb.WriteString("IMSeal")
+		case "rotatecrash":
+			fmt.Fprintf(&sb, "IMRotateCrash %d", o.J)
+		case "sealcrash":
+			fmt.Fprintf(&sb, "IMSealCrash %d %s %s", o.J, casefile.Bool(o.Torn), casefile.Bool(o.PL))
+		case "restart":
+			sb.WriteString("IMRestart")
+		case "restartcrash":
+			fmt.Fprintf(&sb, "IMRestartCrash %s %s %s", natList(o.CutV), casefile.Bool(o.Torn), casefile.Bool(o.PL))
+		}
+	}
+	sb.WriteString("] [")
+	for i, o := range res.mobs {
+		if i > 0 {
+			sb.WriteString("; ")
+		}
+		if o.Died {
+			sb.WriteString("IMDied")
+			continue
+		}
+		sb.WriteString("IMUp [")
+		ids := make([]int, 0, len(o.Fetches))
+		for id := range o.Fetches {
+			ids = append(ids, id)
+		}
+		sort.Ints(ids)
+		for j, id := range ids {
+			if j > 0 {
+				sb.WriteString("; ")
+			}
+			f := o.Fetches[id]
+			switch {
+			case f == "absent":
+				fmt.Fprintf(&sb, "(%d%%N, Absent)", id)
+			case strings.HasPrefix(f, "err:"):
+				fmt.Fprintf(&sb, "(%d%%N, FetchErr)", id)
+			default:
+				b, _ := hex.DecodeString(f)
+				fmt.Fprintf(&sb, "(%d%%N, Body %s)", id, casefile.Bytes(b))
+			}
+		}
+		sb.WriteString("] [")
+		ts := make([]int, 0, len(o.Searches))
+		for t := range o.Searches {
+			ts = append(ts, t)
+		}
+		sort.Ints(ts)
+		for j, t := range ts {
+			if j > 0 {
+				sb.WriteString("; ")
+			}
+			xs := o.Searches[t]
+			pos := make([]int, 0, len(xs))
+			for _, v := range xs {
+				if v < 0 {
+					v = 999999
+				}
+				pos = append(pos, v)
+			}
+			sort.Ints(pos)
+			fmt.Fprintf(&sb, "(%d%%N, %s)", t, casefile.NList(pos))
+		}
+		sb.WriteString("] [")
+		for j, f := range o.Fracs {
+			if j > 0 {
+				sb.WriteString("; ")
+			}
+			fmt.Fprintf(&sb, "(%d, (%s, %s))", f.Ord, casefile.Bool(f.Sealed), casefile.Bool(f.Writable))
+		}
+		sb.WriteString("]")
+	}
+	sb.WriteString("] [")
+	sb.WriteString(strings.Join(res.mops, "; "))
+	sb.WriteString("]")
+	return sb.String(), true
+}
+
+// ---------------------------------------------------------------------------- generators
+
+// random multi-fraction history: rounds of (bulks / rotations / seals, a way to die, maybe a
+// crashed start-up, start)
+func (g *gen) multiHistory(maxRounds int) Plan {
+	p := Plan{Class: "multi-random", Seed: g.r.U64(), Multi: true}
+	p.Ops = append(p.Ops, POp{Kind: "restart"})
+	rounds := g.r.Range(1, maxRounds)
+	var tried []int
+	newBulk := func() int {
+		p.Bulks = append(p.Bulks, g.bulk(3))
+		return len(p.Bulks) - 1
+	}
+	hasDocs, pending := false, 0
+	for rd := 0; rd < rounds; rd++ {
+		n := g.r.Range(1, 4)
+		for j := 0; j < n; j++ {
+			switch c := g.r.Intn(10); {
+			case c < 5 || (rd == 0 && j == 0):
+				bi := -1
+				if len(tried) > 0 && g.r.Chance(1, 3) {
+					k := g.r.Intn(len(tried))
+					bi = tried[k]
+					tried = append(tried[:k], tried[k+1:]...)
+				} else {
+					bi = newBulk()
+				}
+				p.Ops = append(p.Ops, POp{Kind: "bulk", Bulk: bi})
+				hasDocs = true
+			case c < 8:
+				p.Ops = append(p.Ops, POp{Kind: "rotate"})
+				if hasDocs {
+					pending++
+				}
+				hasDocs = false
+			default:
+				p.Ops = append(p.Ops, POp{Kind: "seal"})
+				if pending > 0 {
+					pending--
+				}
+			}
+		}
+		switch c := g.r.Intn(20); {
+		case c < 2: // kill
+		case c < 4:
+			p.Ops = append(p.Ops, POp{Kind: "power"})
+		case c < 8:
+			bi := -1
+			if len(tried) > 0 && g.r.Chance(1, 4) {
+				bi = tried[g.r.Intn(len(tried))]
+			} else {
+				bi = newBulk()
+				tried = append(tried, bi)
+			}
+			p.Ops = append(p.Ops, POp{Kind: "crashin", Bulk: bi, K: g.r.Intn(5), T: -1, KD: -1, KM: -1})
+		case c < 11:
+			if !hasDocs {
+				p.Ops = append(p.Ops, POp{Kind: "bulk", Bulk: newBulk()})
+			}
+			p.Ops = append(p.Ops, POp{Kind: "rotatecrash", J: -1})
+		default:
+			if pending == 0 {
+				if !hasDocs {
+					p.Ops = append(p.Ops, POp{Kind: "bulk", Bulk: newBulk()})
+				}
+				p.Ops = append(p.Ops, POp{Kind: "rotate"})
+				if g.r.Bool() {
+					p.Ops = append(p.Ops, POp{Kind: "bulk", Bulk: newBulk()})
+				}
+			}
+			p.Ops = append(p.Ops, POp{Kind: "sealcrash", J: -1, Torn: g.r.Bool(), PL: g.r.Bool()})
+		}
+		if g.r.Chance(1, 3) {
+			p.Ops = append(p.Ops, POp{Kind: "restartcrash", J: -1, Torn: g.r.Bool(), PL: g.r.Bool()})
+		}
+		p.Ops = append(p.Ops, POp{Kind: "restart"})
+		hasDocs, pending = false, 0
+	}
+	return p
+}
+
+// designed shapes: a crash at operation j of a seal (torn write / power loss), start, further
+// ingestion, rotation and seal, start
+func (g *gen) multiSealWitness(j int, torn, pl bool) Plan {
+	g2 := &gen{r: rng.New(78)}
+	p := Plan{Class: fmt.Sprintf("multi-seal-crash-j%d", j), Seed: g.r.U64(), Multi: true}
+	p.Bulks = [][]PDoc{g2.bulk(2), g2.bulk(2), g2.bulk(2)}
+	p.Ops = []POp{{Kind: "restart"}, {Kind: "bulk", Bulk: 0}, {Kind: "rotate"}, {Kind: "bulk", Bulk: 1},
+		{Kind: "sealcrash", J: j, Torn: torn, PL: pl}, {Kind: "restart"}, {Kind: "bulk", Bulk: 2}, {Kind: "rotate"},
+		{Kind: "seal"}, {Kind: "seal"}, {Kind: "restart"}}
+	return p
+}
+
+// both forms present (crash between the .index rename and the removal of .meta/.docs), then a crash
+// inside the start-up that cleans up, then a start
+func (g *gen) multiBothForms(sj, rj int) Plan {
+	g2 := &gen{r: rng.New(79)}
+	p := Plan{Class: "multi-both-forms", Seed: g.r.U64(), Multi: true}
+	p.Bulks = [][]PDoc{g2.bulk(2), g2.bulk(2)}
+	p.Ops = []POp{{Kind: "restart"}, {Kind: "bulk", Bulk: 0}, {Kind: "rotate"},
+		{Kind: "sealcrash", J: sj, PL: true}, {Kind: "restartcrash", J: rj}, {Kind: "restart"},
+		{Kind: "bulk", Bulk: 1}, {Kind: "restart"}}
+	return p
+}
+
+// two unsealed fractions at a start: the start-up itself seals the older one; crash inside it
+func (g *gen) multiStartupSeal(rj int, torn, pl bool) Plan {
+	g2 := &gen{r: rng.New(80)}
+	p := Plan{Class: "multi-startup-seal", Seed: g.r.U64(), Multi: true}
+	p.Bulks = [][]PDoc{g2.bulk(2), g2.bulk(2), g2.bulk(1)}
+	p.Ops = []POp{{Kind: "restart"}, {Kind: "bulk", Bulk: 0}, {Kind: "rotate"}, {Kind: "bulk", Bulk: 1}}
+	if g.r.Bool() {
+		p.Ops = append(p.Ops, POp{Kind: "power"})
+	}
+	if rj >= 0 {
+		p.Ops = append(p.Ops, POp{Kind: "restartcrash", J: rj, Torn: torn, PL: pl})
+	}
+	p.Ops = append(p.Ops, POp{Kind: "restart"}, POp{Kind: "bulk", Bulk: 2}, POp{Kind: "restart"})
+	return p
+}
+
+// crash inside a rotation at every operation boundary
+func (g *gen) multiRotateWitness(j int) Plan {
+	g2 := &gen{r: rng.New(81)}
+	p := Plan{Class: "multi-rotate-crash", Seed: g.r.U64(), Multi: true}
+	p.Bulks = [][]PDoc{g2.bulk(2), g2.bulk(2)}
+	p.Ops = []POp{{Kind: "restart"}, {Kind: "bulk", Bulk: 0}, {Kind: "rotatecrash", J: j}, {Kind: "restart"},
+		{Kind: "bulk", Bulk: 1}, {Kind: "rotate"}, {Kind: "seal"}, {Kind: "restart"}}
+	return p
+}
+
+func multiPlans(g *gen, thorough bool) []Plan {
+	var plans []Plan
+	for j := 0; j <= 11; j++ {
+		if thorough {
+			for _, pl := range []bool{false, true} {
+				plans = append(plans, g.multiSealWitness(j, false, pl))
+				if j == 2 || j == 5 {
+					plans = append(plans, g.multiSealWitness(j, true, pl))
+				}
+			}
+			continue
+		}
+		plans = append(plans, g.multiSealWitness(j, false, g.r.Bool()))
+		if j == 2 || j == 5 {
+			plans = append(plans, g.multiSealWitness(j, true, g.r.Bool()))
+		}
+	}
+	for _, sj := range []int{8, 9, 10} {
+		for rj := 0; rj <= 2; rj++ {
+			if thorough || g.r.Chance(1, 2) {
+				plans = append(plans, g.multiBothForms(sj, rj))
+			}
+		}
+	}
+	plans = append(plans, g.multiStartupSeal(-1, false, false))
+	for rj := 0; rj <= 17; rj++ {
+		if thorough {
+			plans = append(plans, g.multiStartupSeal(rj, false, false), g.multiStartupSeal(rj, true, true))
+		} else if g.r.Chance(1, 2) {
+			plans = append(plans, g.multiStartupSeal(rj, g.r.Bool(), g.r.Bool()))
+		}
+	}
+	for j := 0; j <= 4; j++ {
+		plans = append(plans, g.multiRotateWitness(j))
+	}
+	n, rounds := 70, 3
+	if thorough {
+		n, rounds = 900, 6
+	}
+	for i := 0; i < n; i++ {
+		g.nextID = 0
+		plans = append(plans, g.multiHistory(rounds))
+	}
+	return plans
+}
+
 func multiProbe() {
 	dir, _ := os.MkdirTemp("", "hC01-mprobe-")
 	defer os.RemoveAll(dir)
-	data := dir + "/data"
-	os.MkdirAll(data, 0o755)
-	st, err := storectl.Start(data)
-	if err != nil {
-		panic(err)
-	}
-	call := func(r storectl.Req) storectl.Resp {
-		x, err := st.Call(r)
-		if err != nil {
-			panic(err)
-		}
-		fmt.Println("  ->", r.Op, string(x.Extra))
-		return x
-	}
-	doc := func(id uint64, body string) storectl.Doc {
-		return storectl.Doc{MID: 1000 + id, RID: id + 1, BodyHex: fmt.Sprintf("%x", body), Tokens: []string{"k:v1"}}
-	}
-	call(storectl.Req{Op: "open", Dir: data})
-	call(storectl.Req{Op: "bulk", Docs: []storectl.Doc{doc(1, `{"a":"x"}`)}})
-	call(storectl.Req{Op: "mrotate"})
-	call(storectl.Req{Op: "bulk", Docs: []storectl.Doc{doc(2, `{"a":"y"}`)}})
-	call(storectl.Req{Op: "mseal"})
-	call(storectl.Req{Op: "mrotate"})
-	tr, err := st.Close()
-	if err != nil {
-		panic(err)
-	}
-	for i, o := range tr.Ops {
-		fmt.Println(i, o)
-	}
-	fmt.Println("verify:", tr.Verify())
-	// restart on the final state (an unsealed fraction + an empty active one)
-	st, _ = storectl.Start(data)
-	call(storectl.Req{Op: "open", Dir: data})
-	call(storectl.Req{Op: "mfracs"})
-	tr, _ = st.Close()
-	for i, o := range tr.Ops {
-		fmt.Println(i, o)
-	}
+	g := &gen{r: rng.New(5)}
+	res := execMulti(g.multiSealWitness(9, false, false), dir)
+	fmt.Println("err:", res.err)
+	term, ok := coqCaseMulti(res)
+	fmt.Println(ok, term)
 }
+
+var _ = errors.New
